@@ -6,6 +6,7 @@ loop against fake devices, vs the Lean models (m_watch: pure answer mappings in
 batch mode, routing in trace mode); oracle: the real drivers vs the answer
 table Spec/AnswerTable.lean (`enc` = what the gateway's protocol reports for a
 bus outcome, `conf` = the property's first sentence evaluated on the result)."""
+from common import exc_name  # noqa: E402
 import asyncio
 import itertools
 import struct
@@ -166,7 +167,7 @@ async def finish_task(ts, t):
         return ("ok", t.result())
     except BaseException as e:  # noqa
         ts.d._outstanding.clear()
-        return ("err", type(e).__name__)
+        return ("err", exc_name(e))
 
 
 def tri_tok(m):
@@ -271,7 +272,7 @@ def suite_hasseb(ctx, corr, ids, picks, allcmds):
             try:
                 return "ok " + canon_answer(t.result(), ids)
             except BaseException as e:  # noqa
-                return "err " + type(e).__name__
+                return "err " + exc_name(e)
         for (bits, q, tw), c in picks.items():
             if bits != 16:
                 continue
@@ -294,8 +295,8 @@ def suite_hasseb(ctx, corr, ids, picks, allcmds):
             await d._send_raw(c24)
             corr.disagree("hasseb_answer", "24-bit frame", "UnsupportedFrameTypeError", "accepted")
         except Exception as e:
-            if type(e).__name__ != "UnsupportedFrameTypeError":
-                corr.disagree("hasseb_answer", "24-bit frame", "UnsupportedFrameTypeError", type(e).__name__)
+            if exc_name(e) != "UnsupportedFrameTypeError":
+                corr.disagree("hasseb_answer", "24-bit frame", "UnsupportedFrameTypeError", exc_name(e))
         # the answer table on every command class
         for c in allcmds:
             if len(c.frame) != 16:
@@ -408,7 +409,7 @@ def suite_serial(ctx, corr, ids, picks, allcmds):
                 try:
                     return "ok " + canon_answer(await t, ids)
                 except BaseException as e:  # noqa
-                    return "err " + type(e).__name__
+                    return "err " + exc_name(e)
             for (bits, q, tw), c in picks.items():
                 for ans in [None] + list(range(256) if q else (0, 255)):
                     r = await one(c, ans)
@@ -506,7 +507,7 @@ def route_daliserver_persistent(ctx, corr, ids, picks, allcmds):
                     try:
                         r = "ok " + canon_answer(srv.send(c), ids)
                     except BaseException as e:  # noqa
-                        r = "err " + type(e).__name__
+                        r = "err " + exc_name(e)
                     history.append("send %d: %s%s, bus %s -> %s" % (i, c, " (twice)" if c.sendtwice else "", bus, r))
                     check_table(corr, "daliserver", c, bus, r, ids,
                                 history={"routing": list(history), "connection": "persistent", "command": str(c), "bus": bus})
@@ -526,7 +527,7 @@ def suite_daliserver(ctx, corr, ids, picks, allcmds):
         try:
             return "ok " + canon_answer(srv.unpack_response(c, bytes(four)), ids)
         except BaseException as e:  # noqa
-            return "err " + type(e).__name__
+            return "err " + exc_name(e)
     for (bits, q, tw), c in picks.items():
         for st in range(256):
             for rv in (range(256) if (q and not tw and bits == 16) else (0, 1, 255)):
@@ -549,7 +550,7 @@ def suite_daliserver(ctx, corr, ids, picks, allcmds):
             try:
                 r = "ok " + canon_answer(srv.send(c), ids)
             except BaseException as e:  # noqa
-                r = "err " + type(e).__name__
+                r = "err " + exc_name(e)
             finally:
                 import socket as _socket
                 dsv.socket = _socket
@@ -631,7 +632,7 @@ def suite_atx(ctx, corr, ids, picks, allcmds):
         try:
             return "ok " + canon_answer(drv.send(c), ids)
         except BaseException as e:  # noqa
-            return "err " + type(e).__name__
+            return "err " + exc_name(e)
     b = Batch(corr, "atx_answer")
     maxlen = 3
     for (bits, q, tw), c in picks.items():
@@ -745,7 +746,7 @@ def route_tridonic(ctx, corr, ids, picks):
                         r = canon_answer(t.result(), ids)
                         expect.append("done:" + r)
                     except BaseException as e:  # noqa
-                        expect.append("raise." + type(e).__name__)
+                        expect.append("raise." + exc_name(e))
                     finished[idx] = True
                 else:
                     expect.append("blocked")
@@ -782,7 +783,7 @@ def route_tridonic(ctx, corr, ids, picks):
                 try:
                     results.append("ok " + canon_answer(t.result(), ids))
                 except BaseException as e:  # noqa
-                    results.append("err " + type(e).__name__)
+                    results.append("err " + exc_name(e))
             else:
                 results.append("blocked")
         return toks, expect, results, history, dict(d._outstanding)
@@ -878,7 +879,7 @@ def route_two_tridonic(ctx, corr, ids, picks):
                 try:
                     res.append("ok " + canon_answer(t.result(), ids))
                 except BaseException as e:  # noqa
-                    res.append("err " + type(e).__name__)
+                    res.append("err " + exc_name(e))
             else:
                 res.append("blocked")
         left = (dict(t1.d._outstanding), dict(t2.d._outstanding))
@@ -894,7 +895,7 @@ def route_two_tridonic(ctx, corr, ids, picks):
         try:
             res, history, left = sim.run(scenario, ca, busa, cb, busb, seqa, seqb, order)
         except Exception as e:  # noqa
-            res, history, left = ["err " + type(e).__name__] * 2, ["the scenario itself raised %r" % (e,)], ({}, {})
+            res, history, left = ["err " + exc_name(e)] * 2, ["the scenario itself raised %r" % (e,)], ({}, {})
         for i, (c, bus) in enumerate(((ca, busa), (cb, busb))):
             check_table(corr, "tridonic", c, bus, res[i], ids,
                         history={"routing": history, "driver": "AB"[i], "command": str(c), "bus": bus,
@@ -935,7 +936,7 @@ def route_hasseb(ctx, corr, ids, picks):
                 try:
                     r = "ok." + canon_answer(tasks[i].result(), ids)
                 except BaseException as e:  # noqa
-                    r = "err." + type(e).__name__
+                    r = "err." + exc_name(e)
                 expect.append(r)
                 results[i] = (r.replace(".", " ", 1), False)
                 history.append("caller %d writes non-query %s" % (i, c.frame))
@@ -959,7 +960,7 @@ def route_hasseb(ctx, corr, ids, picks):
             try:
                 r = "ok." + canon_answer(tasks[i].result(), ids)
             except BaseException as e:  # noqa
-                r = "err." + type(e).__name__
+                r = "err." + exc_name(e)
             expect.append(r)
             results[i] = (r.replace(".", " ", 1), late_dup[i])
         return toks, expect, results, history
@@ -1037,7 +1038,7 @@ def route_serial(ctx, corr, ids, picks):
             try:
                 r = "ok." + canon_answer(await t, ids)
             except BaseException as e:  # noqa
-                r = "err." + type(e).__name__
+                r = "err." + exc_name(e)
             if c.response is not None:
                 # did the real driver take an item or time out?  the model is told which
                 took = r.startswith("ok.resp") and not r.endswith(".s")
@@ -1125,7 +1126,7 @@ def route_serial_late_in_prefix(ctx, corr, ids):
         try:
             r = "ok " + canon_answer(await t, ids)
         except BaseException as e:  # noqa
-            r = "err " + type(e).__name__
+            r = "err " + exc_name(e)
         return r, history, len(ss.tr.written)
 
     rng = ctx.rng
@@ -1195,7 +1196,7 @@ def route_serial_slow_confirm(ctx, corr, ids, picks):
             try:
                 r = "ok " + canon_answer(await asyncio.wait_for(t, 5.0), ids)
             except BaseException as e:  # noqa
-                r = "err " + type(e).__name__
+                r = "err " + exc_name(e)
             history.append("send %d: %s%s, bus %s -> %s" % (i, c, " (twice)" if c.sendtwice else "", bus, r))
             results.append((r, list(history)))
             await sim.settle(2)
@@ -1268,7 +1269,7 @@ def route_atx_sequence(ctx, corr, ids, picks, allcmds):
             try:
                 r = "ok " + canon_answer(drv.send(c), ids)
             except BaseException as e:  # noqa
-                r = "err " + type(e).__name__
+                r = "err " + exc_name(e)
             history.append("send %d: %s, bus %s -> %s" % (i, c, bus, r))
             check_table(corr, "atx", c, bus, r, ids,
                         history={"routing": list(history), "port": "one hat, commands in sequence",
@@ -1314,7 +1315,7 @@ def route_serial_cancel_queued(ctx, corr, ids, picks):
             try:
                 res.append("ok " + canon_answer(await asyncio.wait_for(t, 5.0), ids))
             except BaseException as e:  # noqa
-                res.append("err " + type(e).__name__)
+                res.append("err " + exc_name(e))
         try:
             await t2
         except BaseException:   # noqa
@@ -1418,7 +1419,7 @@ def route_serial_delivery(ctx, corr, ids, picks, found):
             try:
                 r = "ok." + canon_answer(await t, ids)
             except BaseException as e:  # noqa
-                r = "err." + type(e).__name__
+                r = "err." + exc_name(e)
             toks.append("L.%d.%s" % (i, ids.tok(c.response)))
             expect.append("-")
             if bus[0] == "v":
@@ -1623,7 +1624,7 @@ def route_atx_threads(ctx, corr, ids, picks, found):
             try:
                 results[1] = "ok " + canon_answer(drv.send(c1), ids)
             except BaseException as e:  # noqa
-                results[1] = "err " + type(e).__name__
+                results[1] = "err " + exc_name(e)
 
         def second():
             sched.ids[threading.get_ident()] = 2
@@ -1631,7 +1632,7 @@ def route_atx_threads(ctx, corr, ids, picks, found):
             try:
                 results[2] = "ok " + canon_answer(drv.send(c2), ids)
             except BaseException as e:  # noqa
-                results[2] = "err " + type(e).__name__
+                results[2] = "err " + exc_name(e)
             finally:
                 sched.at_lock2.set()
                 sched.done2.set()
